@@ -114,7 +114,7 @@ def project_pools(executor, idx: PipeIndex, cids: CidMap, U):
             act.append({"cid": cids.get(c.container_id), "idx": c._current_op_idx, "mem": mem, "memr": memr,
                         "can": bool(c.can_suspend_container()), "done": bool(c.is_completed()),
                         "cpu": c.assignment.cpu, "ram": ram, "ramr": ramr, "ticks": c.ticks_elapsed(),
-                        "ops": [idx.ref(o) for o in c.operators]})
+                        "prio": c.priority.name[0], "ops": [idx.ref(o) for o in c.operators]})
         susp = []
         for c in R.suspending_containers:
             ram, ramr = to_units(c.assignment.ram, U)
@@ -186,7 +186,7 @@ class ExecTrace:
         self.t += 1
 
     def exec_raised(self, exc):
-        self.events.append({"ev": "raise", "tid": self.tid, "t": self.t, "exc": type(exc).__name__, "msg": str(exc)[:120]})
+        self.events.append({"ev": "raise", "tid": self.tid, "t": self.t, "exc": type(exc).__name__, "msg": str(exc)[:120], "where": "exec"})
 
     def end(self):
         self.events.append({"ev": "end", "tid": self.tid, "t": self.t})
